@@ -12,6 +12,9 @@
 // their own, a later connection after all others have ended; oracle clauses for contexts that outlive their
 // exchange while the connection lives on, session ids and stored values, Warning texts, the upstream order
 // of a blind CONNECT and what a downstream proxy is sent.
+//
+// Round 7 (spell.go): how the client spells a request - target form x Host header x protocol version, including
+// requests that name no host and that only a request modifier ("route") makes routable.
 package main
 
 import (
@@ -49,6 +52,7 @@ type scenario struct {
 	Mode2  string   `json:",omitempty"` // mode of the second connection (default plain; plain | mitm-plain | mitm-tls)
 	Beh2   []string `json:",omitempty"` // behaviours of the second connection (default: one "pass" exchange)
 	After  bool     `json:",omitempty"` // once everything has quiesced (all earlier connections closed) a further connection runs one plain exchange
+	Spell  []string `json:",omitempty"` // round 7: how the client spells each request of connection 0 ("<target form>,<Host header>,<version>", see spell.go; "" = the usual spelling)
 	Lean   bool     `json:",omitempty"` // the harness modifiers do not probe the session's value store and the requests of earlier exchanges (each probe is a lock operation in martian, i.e. a scheduling point); set for the scenarios explored at deviation bound 3
 }
 
@@ -62,6 +66,9 @@ func (s scenario) String() string {
 	}
 	if s.Lean {
 		out += " lean=true"
+	}
+	if s.Spell != nil {
+		out += fmt.Sprintf(" spelling=%q", s.Spell)
 	}
 	return out
 }
@@ -134,6 +141,7 @@ type call struct {
 	Body    string // request body as read by the round tripper
 	Linger  string // earlier exchanges of the same connection whose request still resolved to a context when this request modifier started
 	SessVal string // "foreign:<conn>" / "lost": what the session's value store showed when this request modifier started
+	Host    string // the host the request names when the call starts (URL.Host, else the Host field)
 }
 
 type finding struct{ Sig, Desc string }
@@ -238,6 +246,9 @@ func run(sc scenario) (body func(), check func(r *vrt.Result) []finding) {
 		}
 		rec := func(kind string, req *http.Request, hdr http.Header) call {
 			c := call{Kind: kind, Tick: vrt.Tick(), Req: req, Conn: req.Header.Get("X-Conn"), Seq: req.Header.Get("X-Seq"), Method: req.Method, Scheme: req.URL.Scheme}
+			if c.Host = req.URL.Host; c.Host == "" {
+				c.Host = req.Host
+			}
 			c.Ctx = martian.NewContext(req)
 			if c.Ctx != nil {
 				c.CtxID = c.Ctx.ID()
@@ -319,6 +330,10 @@ func run(sc scenario) (body func(), check func(r *vrt.Result) []finding) {
 			if mutates(b) {
 				req.Header.Set("X-Req-Mut", c.Conn+"/"+c.Seq)
 			}
+			if has(b, "route") && req.URL.Host == "" {
+				// transparent routing: a request that names no host is sent where the modifier decides
+				req.URL.Host = routedHost
+			}
 			if has(b, "preapi") {
 				c.Ctx.APIRequest() // another modifier marked the exchange as addressed to the proxy's API first
 			}
@@ -374,6 +389,9 @@ func run(sc scenario) (body func(), check func(r *vrt.Result) []finding) {
 						return nil, fmt.Errorf("net/http: invalid header field value for %q", name)
 					}
 				}
+			}
+			if req.URL.Host == "" {
+				return nil, errors.New("http: no Host in request URL") // like http.Transport
 			}
 			if b := behOf(c.Conn, c.Seq); has(b, "rterr") {
 				// the class of the error must not matter: an upstream that hangs up (io.EOF) or times out is
@@ -527,6 +545,9 @@ func run(sc scenario) (body func(), check func(r *vrt.Result) []finding) {
 				target = "/x"
 			}
 			render := func(k int, b string) string {
+				if sp := sc.spellOf(name, k); sp != "" {
+					return renderSpelled(sp, name, k)
+				}
 				if has(b, "post") {
 					return fmt.Sprintf("POST %s HTTP/1.1\r\nHost: origin.test\r\nX-Conn: %s\r\nX-Seq: %d\r\nContent-Length: %d\r\n\r\n%s", target, name, k, len(postBody), postBody)
 				}
@@ -636,6 +657,12 @@ func run(sc scenario) (body func(), check func(r *vrt.Result) []finding) {
 			mode, _ := sc.spec(conn)
 			ky := key{conn, fmt.Sprint(k)}
 			btag := tag + ":" + beh
+			sp := sc.spellOf(conn, k)
+			if sp != "" {
+				btag += ":" + spellClass(sp)
+			}
+			// a request that names no host, outside a tunnel, which the request modifier does not route either
+			unroutable := sp != "" && mode == "plain" && hostless(sp) && !has(beh, "route")
 			rq := reqs[ky]
 			if len(rq) != 1 {
 				add("reqmod_count:"+btag, "exchange %v: request modifier ran %d times (want 1)", ky, len(rq))
@@ -656,6 +683,9 @@ func run(sc scenario) (body func(), check func(r *vrt.Result) []finding) {
 			}
 			if c.Method != wantMethod {
 				add("reqmod_wrong_request:"+btag, "exchange %v: the request modifier was handed a %q request, the client sent %s (the proxy is out of frame)", ky, c.Method, wantMethod)
+			}
+			if sp != "" && !hostless(sp) && c.Host != originHost {
+				add("reqmod_request_host:"+btag, "exchange %v: the request handed to the request modifier names host %q, the client's request (%s) names %s", ky, c.Host, sp, originHost)
 			}
 			if c.Stale != "" {
 				add("context_not_fresh:"+tag+":"+c.Stale, "exchange %v: when the request modifier started the context already carried %s from an earlier exchange", ky, c.Stale)
@@ -712,9 +742,30 @@ func run(sc scenario) (body func(), check func(r *vrt.Result) []finding) {
 					}
 				}
 			default:
+				if unroutable {
+					// nobody named a destination: the round trip can only fail (or be left out); what the statement
+					// fixes is that both modifiers still get their single call and that an answer goes back
+					if len(rts[ky]) > 1 {
+						add("roundtrip_count:"+btag, "exchange %v: %d round trips (want at most 1)", ky, len(rts[ky]))
+					}
+					break
+				}
 				if len(rts[ky]) != 1 {
 					add("roundtrip_count:"+btag, "exchange %v: %d round trips (want 1)", ky, len(rts[ky]))
 				} else {
+					if sp != "" {
+						// upstream contact is with the host the request names once the request modifier is done with it
+						wantHost := originHost
+						if hostless(sp) {
+							wantHost = ""
+							if has(beh, "route") && mode == "plain" {
+								wantHost = routedHost
+							}
+						}
+						if wantHost != "" && rts[ky][0].Host != wantHost {
+							add("upstream_other_host:"+btag, "exchange %v (%s): the round tripper was handed a request for host %q, want %q", ky, sp, rts[ky][0].Host, wantHost)
+						}
+					}
 					if rts[ky][0].Tick < c.Tick {
 						add("upstream_before_reqmod:"+btag, "exchange %v: origin contacted before the request modifier ran", ky)
 					}
@@ -819,37 +870,47 @@ func run(sc scenario) (body func(), check func(r *vrt.Result) []finding) {
 				if isHijack(b) || has(b, "gone") {
 					break
 				}
+				mode, _ := sc.spec(o.conn)
+				sp := sc.spellOf(o.conn, k)
+				unroutable := sp != "" && mode == "plain" && hostless(sp) && !has(b, "route") && !has(b, "skip")
+				bt := b
+				if sp != "" {
+					bt += ":" + spellClass(sp)
+				}
 				if idx >= len(o.statuses) {
-					add("missing_response:"+tag+":"+b, "client %s received no response for exchange %d (%s)", o.conn, k, b)
+					add("missing_response:"+tag+":"+bt, "client %s received no response for exchange %d (%s)", o.conn, k, b)
 					break
 				}
 				want := 200
 				if has(b, "rterr") || has(b, "dialerr") || has(b, "downerr") {
 					want = 502
 				}
-				if o.statuses[idx] != want {
-					add("wrong_status:"+tag+":"+b, "exchange %d (%s): client received status %d, want %d", k, b, o.statuses[idx], want)
+				if o.statuses[idx] != want && !unroutable { // (the statement does not fix the status of a request nobody routed)
+					add("wrong_status:"+tag+":"+bt, "exchange %d (%s): client received status %d, want %d", k, b, o.statuses[idx], want)
 				}
 				wantWarn := has(b, "reserr") || has(b, "rterr") || has(b, "dialerr") || has(b, "downerr")
 				if wantWarn && !o.warnings[idx] {
-					add("no_warning_at_client:"+tag+":"+b, "exchange %d (%s): response reached the client without a Warning header", k, b)
+					add("no_warning_at_client:"+tag+":"+bt, "exchange %d (%s): response reached the client without a Warning header", k, b)
 				} else if wantWarn {
 					texts := warnTexts(b)
 					for _, src := range vrt.SortedKeys(texts) {
 						if !strings.Contains(o.warnText[idx], texts[src]) {
-							add("warning_lost_at_client:"+tag+":"+b+":"+src, "exchange %d (%s): the response's Warning headers %q do not name the %s error (%q): not every error was surfaced", k, b, o.warnText[idx], src, texts[src])
+							add("warning_lost_at_client:"+tag+":"+bt+":"+src, "exchange %d (%s): the response's Warning headers %q do not name the %s error (%q): not every error was surfaced", k, b, o.warnText[idx], src, texts[src])
 						}
 					}
 				}
 				if wantMut := o.conn + "/" + fmt.Sprint(k); mutates(b) && o.resMut[idx] != wantMut {
-					add("resmod_change_lost:"+tag+":"+b, "exchange %d (%s): the response reached the client without the header the response modifier set (X-Res-Mut=%q, want %q)", k, b, o.resMut[idx], wantMut)
+					add("resmod_change_lost:"+tag+":"+bt, "exchange %d (%s): the response reached the client without the header the response modifier set (X-Res-Mut=%q, want %q)", k, b, o.resMut[idx], wantMut)
 				} else if !mutates(b) && o.resMut[idx] != "" {
-					add("resmod_change_from_other_exchange:"+tag+":"+b, "exchange %d (%s): the response carries X-Res-Mut=%q, which only another exchange's response modifier set", k, b, o.resMut[idx])
+					add("resmod_change_from_other_exchange:"+tag+":"+bt, "exchange %d (%s): the response carries X-Res-Mut=%q, which only another exchange's response modifier set", k, b, o.resMut[idx])
 				}
 				idx++
 			}
 			if hijackedAt >= 0 {
 				hb := beh[hijackedAt]
+				if sp := sc.spellOf(o.conn, hijackedAt); sp != "" {
+					hb += ":" + spellClass(sp)
+				}
 				if !o.gotMarker {
 					add("hijack_marker_lost:"+tag+":"+hb, "the bytes written by the hijacker did not reach the client (extra=%q)", o.extra)
 				}
@@ -1084,12 +1145,14 @@ func scenarios(tier string) []scenario {
 			scenario{Mode: mode, Beh: []string{"pass", "mut"}, Second: true, Mode2: mode, Beh2: []string{"pass", "hijack-req"}},
 			scenario{Mode: mode, Beh: []string{"reqerr", "skip"}, Second: true, Mode2: mode, Beh2: []string{"mut", "rterr"}, After: true})
 	}
+	// round 7: request spellings (target form x Host header x protocol version), see spell.go
+	out = append(out, spellScenarios(tier)...)
 	return out
 }
 
 // added reports whether a scenario belongs to the families the audit added (see AUDIT.md).
 func added(sc scenario) bool {
-	if sc.After || sc.Beh2 != nil || sc.Mode2 != "" {
+	if sc.After || sc.Beh2 != nil || sc.Mode2 != "" || sc.Spell != nil {
 		return true
 	}
 	for i, b := range sc.Beh {
@@ -1123,6 +1186,16 @@ func main() {
 	tier := lib.Tier()
 	initMITM()
 	scen := scenarios(tier)
+	if os.Getenv("C02_ONLY") == "spell" {
+		// development aid: only the request-spelling family of round 7 (to measure it on its own)
+		var only []scenario
+		for _, sc := range scen {
+			if sc.Spell != nil {
+				only = append(only, sc)
+			}
+		}
+		scen = only
+	}
 	if rp := os.Getenv("VERIF_REPLAY"); rp != "" {
 		var doc struct {
 			First struct {
@@ -1276,7 +1349,15 @@ func main() {
 		}
 	}
 	rep.Coverage["scenarios_added_by_audit"] = nAdded
-	rep.Coverage["bounds"] = fmt.Sprintf("%d scenarios (%d of them from the audit, AUDIT.md): plain mode with all behaviour sequences (30 behaviours incl. combinations: errors with one- and multi-line messages, two errors on one response, skip round trip combined with the other context marks in both orders, a RoundTripper answering on a clone of the request, modifiers that change the messages, requests with a body that a skipped or failed round trip leaves unread, hijackers whose modifier also fails, clients that close behind their request; the eleven newest paired with the eight basic ones) up to length %d, blind CONNECT x 16 behaviours (direct / through a downstream proxy), MITM with plaintext / TLS inside x CONNECT behaviours x inner behaviours; optional second concurrent connection (plain pass, or with behaviours / an intercepted tunnel of its own), optional later connection after all others have ended, pipelining (also of a request behind the hijacked one); every schedule with <= %d deviations (one less for TLS scenarios; sequences of three exchanges: <= 1; thorough, the audit's scenarios: <= 2)", len(scen), nAdded, map[string]int{"quick": 2, "thorough": 3}[tier], map[string]int{"quick": 1, "thorough": 3}[tier])
+	nSpelled := 0
+	for _, sc := range scen {
+		if sc.Spell != nil {
+			nSpelled++
+		}
+	}
+	rep.Coverage["scenarios_request_spellings"] = nSpelled
+	rep.Coverage["request_spellings"] = fmt.Sprintf("%d spellings = target form %v x Host header %v x version %v; each x 7 behaviours (pass, route = the request modifier names the host of a request that names none, skip, reqerr, route+reserr, hijack-req, route+hijack-res) as a single exchange, keep-alive spellings followed by every spelling on the same connection, every spelling as the first request inside an intercepted tunnel", len(allSpellings()), spellForms, spellHosts, spellVersions)
+	rep.Coverage["bounds"] = fmt.Sprintf("%d scenarios (%d of them from the audit, AUDIT.md): plain mode with all behaviour sequences (30 behaviours incl. combinations: errors with one- and multi-line messages, two errors on one response, skip round trip combined with the other context marks in both orders, a RoundTripper answering on a clone of the request, modifiers that change the messages, requests with a body that a skipped or failed round trip leaves unread, hijackers whose modifier also fails, clients that close behind their request; the eleven newest paired with the eight basic ones) up to length %d, blind CONNECT x 16 behaviours (direct / through a downstream proxy), MITM with plaintext / TLS inside x CONNECT behaviours x inner behaviours; optional second concurrent connection (plain pass, or with behaviours / an intercepted tunnel of its own), optional later connection after all others have ended, pipelining (also of a request behind the hijacked one); %d scenarios over the spelling of the request (target form x Host header presence x protocol version, incl. requests that name no host and that only a request modifier makes routable); every schedule with <= %d deviations (one less for TLS scenarios; sequences of three exchanges: <= 1; thorough, the audit's scenarios: <= 2)", len(scen), nAdded, map[string]int{"quick": 2, "thorough": 3}[tier], nSpelled, map[string]int{"quick": 1, "thorough": 3}[tier])
 	rep.Coverage["explanation"] = "each execution runs the real proxy.go/context.go over simnet under the gosim scheduler with recording modifiers; the clause that no context remains retrievable is judged through the public API (martian.NewContext on every request the modifiers saw)"
 	rep.Assumptions = []string{"round trips go through a synchronous harness RoundTripper (which validates header fields like http.Transport)", "TLS inside the tunnel uses crypto/tls unmodified on simnet connections", "unsynchronised accesses (context/session id generation, context table) are covered by the auxiliary free-running -race pass (sampling)"}
 	raceIters := "30"
